@@ -77,18 +77,22 @@ type thread struct {
 	stack   string
 	nops    int // operations completed so far (program position of straight-line threads)
 	s       *Sched
+	vc      vclock
 }
 
 type vchan struct {
-	cap    int
-	buf    []interface{}
-	closed bool
-	name   string
-	rcvrs  map[string]bool // threads that have received from it (who could unblock a sender)
+	cap     int
+	buf     []interface{}
+	closed  bool
+	name    string
+	rcvrs   map[string]bool // threads that have received from it (who could unblock a sender)
+	vcs     []vclock        // clocks travelling with the buffered values
+	closeVC vclock
 }
 
 type Timer struct {
 	s     *Sched
+	vc    vclock
 	id    int
 	armed bool
 	f     func()
@@ -153,6 +157,8 @@ type Sched struct {
 	idleAtEnd                     []string
 	endArmed, endTickers, endLeft int
 	harnessLeft                   []string
+	race                          raceState
+	alive                         sync.WaitGroup // goroutines of this execution that have not returned yet
 }
 
 var cur *Sched // the execution in progress (one at a time per process)
@@ -432,8 +438,15 @@ func (s *Sched) stateKey() string {
 	if s.cur != nil {
 		fmt.Fprintf(&sb, "cur%d", s.cur.id)
 	}
+	if s.race.on {
+		// which kinds of thread have touched which locations so far: a state reached with a new combination is
+		// expanded again (a race needs both accesses in one execution)
+		fmt.Fprintf(&sb, "R%x", s.race.sum)
+	}
 	if s.KeyFn != nil {
+		s.race.quiet++
 		sb.WriteString(s.KeyFn())
+		s.race.quiet--
 	}
 	h := sha256.Sum256([]byte(sb.String()))
 	return hex.EncodeToString(h[:10])
@@ -459,6 +472,11 @@ func (s *Sched) doSend(t *thread, ch uintptr, v interface{}, chosen int) {
 			c.rcvrs = map[string]bool{}
 		}
 		c.rcvrs[base(r.name)] = true
+		// an unbuffered rendezvous orders both ways
+		r.vc.join(t.vc)
+		t.vc.join(r.vc)
+		t.tick()
+		r.tick()
 		// hand the value to the receiver
 		if r.op.kind == opRecv {
 			s.complete(r, v, true, -1)
@@ -474,6 +492,8 @@ func (s *Sched) doSend(t *thread, ch uintptr, v interface{}, chosen int) {
 		return
 	}
 	c.buf = append(c.buf, v)
+	c.vcs = append(c.vcs, t.vc.copy())
+	t.tick()
 	s.complete(t, nil, true, chosen)
 }
 
@@ -486,15 +506,26 @@ func (s *Sched) doRecv(t *thread, ch uintptr, chosen int) {
 	if len(c.buf) > 0 {
 		v := c.buf[0]
 		c.buf = c.buf[1:]
+		if len(c.vcs) > 0 {
+			t.vc.join(c.vcs[0])
+			c.vcs = c.vcs[1:]
+		}
 		s.complete(t, v, true, chosen)
 		return
 	}
 	if c.closed {
+		t.vc.join(c.closeVC)
 		s.complete(t, nil, false, chosen)
 		return
 	}
 	// rendezvous with a pending sender
 	w := s.otherPending(t, true, ch)
+	t.vc.join(w.vc)
+	if c.cap == 0 {
+		w.vc.join(t.vc)
+	}
+	w.tick()
+	t.tick()
 	var v interface{}
 	if w.op.kind == opSend {
 		v = w.op.val
@@ -518,12 +549,14 @@ func (s *Sched) apply(a Alt) *thread {
 			tm.armed = false
 			s.FireBudget--
 			nt := s.spawn(fmt.Sprintf("timer#%d-callback", tm.id), tm.f, true)
-			_ = nt
+			nt.vc = tm.vc.copy()
+			nt.vc.set(nt.id, 1)
 			return nil
 		}
 		tk := s.tickers[a.Ticker]
 		_, c := s.vc(tk.C)
 		c.buf = append(c.buf, time.Time{})
+		c.vcs = append(c.vcs, nil)
 		tk.ticks++
 		s.TickBudget--
 		return nil
@@ -546,6 +579,8 @@ func (s *Sched) apply(a Alt) *thread {
 			o.done, o.panicv = true, "close of closed channel"
 		} else {
 			c.closed = true
+			c.closeVC = t.vc.copy()
+			t.tick()
 			o.done = true
 		}
 	case opSend:
@@ -732,8 +767,15 @@ func (s *Sched) self() *thread {
 func (s *Sched) spawn(name string, f func(), service bool) *thread {
 	t := &thread{id: len(s.threads), name: fmt.Sprintf("T%d(%s)", len(s.threads), name), wake: make(chan struct{}, 1), service: service, s: s}
 	t.op = &op{kind: opStart}
+	if s.cur != nil {
+		t.vc = s.cur.vc.copy()
+		s.cur.tick()
+	}
+	t.vc.set(t.id, 1)
 	s.threads = append(s.threads, t)
+	s.alive.Add(1)
 	go func() {
+		defer s.alive.Done()
 		gids.Store(goid(), t)
 		defer gids.Delete(goid())
 		<-t.wake // first slice
@@ -1063,6 +1105,10 @@ func AfterFunc(d time.Duration, f func()) *Timer {
 	s := mine()
 	s.mu.Lock()
 	t := &Timer{s: s, id: len(s.timers), armed: true, f: f, site: site()}
+	if s.cur != nil {
+		t.vc = s.cur.vc.copy()
+		s.cur.tick()
+	}
 	s.timers = append(s.timers, t)
 	s.mu.Unlock()
 	return t
@@ -1211,7 +1257,9 @@ type Result struct {
 	Armed     int // timers still armed at the end
 	TickersOn int
 	Threads   int
-	Left      int // threads not finished at the end
+	Left      int      // threads not finished at the end
+	Races     []string // "signature\ndescription" per distinct race (RaceMode)
+	Accesses  int64
 }
 
 // Run executes body (which sets up the world and starts harness threads with GoHarness) under the choice prefix.
@@ -1221,6 +1269,18 @@ var UseStateKeys bool
 func Run(prefix []int, fireBudget, tickBudget, maxPoints int, body func()) Result {
 	s := &Sched{chans: map[uintptr]*vchan{}, capOv: map[uintptr]int{}, names: map[uintptr]string{}, prefix: prefix, done: make(chan struct{}),
 		FireBudget: fireBudget, TickBudget: tickBudget, MaxPoints: maxPoints, UseKeys: UseStateKeys}
+	if prev := cur; prev != nil {
+		// the goroutines of the previous execution were released to unwind when it ended; they must be gone before
+		// this one starts (their deferred functions run implementation code)
+		gone := make(chan struct{})
+		go func() { prev.alive.Wait(); close(gone) }()
+		select {
+		case <-gone:
+		case <-time.After(20 * time.Second):
+			s.Diverged = "goroutines of the previous execution did not terminate"
+		}
+	}
+	s.race = raceState{on: RaceMode, locs: map[uintptr]*shadow{}, Races: map[string]string{}}
 	cur = s
 	s.mu.Lock()
 	main := s.spawn("scenario", body, false)
@@ -1242,6 +1302,7 @@ func Run(prefix []int, fireBudget, tickBudget, maxPoints int, body func()) Resul
 	defer s.mu.Unlock()
 	r := Result{Points: s.Points, Trace: s.Trace, Deadlock: s.Deadlock, Cycle: s.Cycle, Panics: s.Panics, Diverged: s.Diverged, Truncated: s.Truncated, Idle: s.idleAtEnd, Threads: len(s.threads)}
 	r.Armed, r.TickersOn, r.Left = s.endArmed, s.endTickers, s.endLeft
+	r.Races, r.Accesses = s.raceList(), s.race.nAcc
 	return r
 }
 
